@@ -137,6 +137,9 @@ func (fr *Frame) invoke(cc *ssa.CallCommon, recv Value, args []Value, pc *Term, 
 	ex := fr.ex
 	mname := cc.Method.Name()
 	sig := cc.Signature()
+	if r, ok := fr.cryptoInvoke(cc, recv, args, pc, st, pos, resT); ok {
+		return r
+	}
 	if isReadWriteSig(sig) && (mname == "Read" || mname == "Write") {
 		if mname == "Read" {
 			return fr.modelRead(args[0], pc, st, false)
@@ -460,20 +463,20 @@ func (fr *Frame) chanRecv(ch Value, x *ssa.UnOp, pc *Term, st *State) Value {
 	return v
 }
 
+func chanLogKey(dir string, et types.Type) string { return "ghost|" + dir + "|" + typeKey(et) + "." }
+
 func (ex *Exec) recvEvent(st *State, c ChanV, v Value, pc *Term, et types.Type) {
-	n := st.get("ghost|recv.n", SBV(64))
-	a := st.get("ghost|recv.ch", SArr(SBV(64), SRef))
-	st.set("ghost|recv.ch", Store(a, n, c.Ref))
-	ty := st.get("ghost|recv.ty", SArr(SBV(64), SBV(16)))
-	st.set("ghost|recv.ty", Store(ty, n, ex.typeID(et)))
+	k := chanLogKey("recv", et)
+	n := st.get(k+"n", SBV(64))
+	a := st.get(k+"ch", SArr(SBV(64), SRef))
+	st.set(k+"ch", Store(a, n, c.Ref))
 	if p, ok := v.(PtrV); ok && p.Kind == PHeap {
-		va := st.get("ghost|recv.val", SArr(SBV(64), SRef))
-		st.set("ghost|recv.val", Store(va, n, p.Ref))
+		va := st.get(k+"val", SArr(SBV(64), SRef))
+		st.set(k+"val", Store(va, n, p.Ref))
 	}
-	st.set("ghost|recv.n", ex.bump(pc, n))
-	cn := "ghost|recv.cnt|" + typeKey(et)
-	cnt := st.get(cn, SArr(SRef, SBV(64)))
-	st.set(cn, Store(cnt, c.Ref, ex.bump(pc, Select(cnt, c.Ref))))
+	st.set(k+"n", ex.bump(pc, n))
+	cnt := st.get(k+"cnt", SArr(SRef, SBV(64)))
+	st.set(k+"cnt", Store(cnt, c.Ref, ex.bump(pc, Select(cnt, c.Ref))))
 }
 
 func (fr *Frame) chanSend(ch Value, v Value, chExpr ssa.Value, pc *Term, st *State, pos token.Pos) {
@@ -494,19 +497,17 @@ func (fr *Frame) chanSend(ch Value, v Value, chExpr ssa.Value, pc *Term, st *Sta
 		cl := st.get("chclosed", SArr(SRef, SBool))
 		ex.oblige("send", exprAtPos(ex, pos), pos, pc, Not(Select(cl, c.Ref)), "send on a channel that is not closed")
 	}
-	n := st.get("ghost|send.n", SBV(64))
-	a := st.get("ghost|send.ch", SArr(SBV(64), SRef))
-	st.set("ghost|send.ch", Store(a, n, c.Ref))
-	ty := st.get("ghost|send.ty", SArr(SBV(64), SBV(16)))
-	st.set("ghost|send.ty", Store(ty, n, ex.typeID(chanElem(chExpr.Type()))))
+	k := chanLogKey("send", chanElem(chExpr.Type()))
+	n := st.get(k+"n", SBV(64))
+	a := st.get(k+"ch", SArr(SBV(64), SRef))
+	st.set(k+"ch", Store(a, n, c.Ref))
 	if p, ok := v.(PtrV); ok && p.Kind == PHeap {
-		va := st.get("ghost|send.val", SArr(SBV(64), SRef))
-		st.set("ghost|send.val", Store(va, n, p.Ref))
+		va := st.get(k+"val", SArr(SBV(64), SRef))
+		st.set(k+"val", Store(va, n, p.Ref))
 	}
-	st.set("ghost|send.n", ex.bump(pc, n))
-	cn := "ghost|send.cnt|" + typeKey(chanElem(chExpr.Type()))
-	cnt := st.get(cn, SArr(SRef, SBV(64)))
-	st.set(cn, Store(cnt, c.Ref, ex.bump(pc, Select(cnt, c.Ref))))
+	st.set(k+"n", ex.bump(pc, n))
+	cnt := st.get(k+"cnt", SArr(SRef, SBV(64)))
+	st.set(k+"cnt", Store(cnt, c.Ref, ex.bump(pc, Select(cnt, c.Ref))))
 }
 
 func (fr *Frame) selectInstr(x *ssa.Select, pc *Term, st *State) Value {
